@@ -16,23 +16,15 @@ Theorem C06_int_signed_roundtrip : forall w z rest,
 Proof. exact int_signed_roundtrip. Qed.
 
 (* ---- VecDeque / Vec ---------------------------------------------------------------------- *)
-(* within the guards the sequence shown is the len elements from head on in the ring of cap slots,
-   zero-sized element types included *)
-Theorem C06_vecdeque_exact_partial : forall len cap_raw head el buf,
-  vd_guarded len cap_raw el -> vd_valid len cap_raw head el ->
-  cap_raw * el < 2 ^ 64 -> cap_raw * el <= lenN buf ->
-  vecdeque_decode len cap_raw head el buf = Ok (vecdeque_spec len cap_raw head el buf).
+(* for ANY capacity: the sequence shown is the len elements from head on in the ring of cap slots,
+   zero-sized element types included; extra hypothesis: len <= LEN_GUARD *)
+Theorem C06_vecdeque_exact_partial : forall dp len cap_raw head el buf,
+  len <= LEN_GUARD -> vd_valid len cap_raw head el ->
+  cap_raw * el <= lenN buf -> dp + (cap_raw + LEN_GUARD) * el < 2 ^ 63 ->
+  vecdeque_decode_at dp len cap_raw head el buf = Ok (vecdeque_spec len cap_raw head el buf).
 Proof. exact vecdeque_exact_partial. Qed.
 
-(* a legal VecDeque with capacity above CAP_GUARD: slot 0 is shown instead of slot 10000 *)
-Theorem C06_vecdeque_cap_guard_refuted :
-  exists len cap head el buf,
-    vd_valid len cap head el /\ cap * el = lenN buf /\
-    vecdeque_decode len cap head el buf = Ok [(0, [0])] /\
-    vecdeque_spec len cap head el buf = [(10000, [7])].
-Proof. exact vecdeque_cap_guard_refuted. Qed.
-
-(* more than LEN_GUARD elements: silently truncated *)
+(* the stated limitation: more than LEN_GUARD elements are silently truncated *)
 Theorem C06_vecdeque_len_guard_refuted :
   exists len cap head el buf,
     vd_valid len cap head el /\ cap * el = lenN buf /\
@@ -40,17 +32,41 @@ Theorem C06_vecdeque_len_guard_refuted :
       lenN items = LEN_GUARD /\ lenN (vecdeque_spec len cap head el buf) = LEN_GUARD + 1.
 Proof. exact vecdeque_len_guard_refuted. Qed.
 
-(* header fields no VecDeque has (uninitialised memory): a slot shown twice, or a panic *)
-Theorem C06_vecdeque_len_gt_cap_refuted :
-  vecdeque_decode 2 1 0 1 [5] = Ok [(0, [5]); (0, [5])] /\
-  vecdeque_decode 3 1 0 1 [5] = Panic SITE_VD_SLICE /\
-  vecdeque_decode 1 0 0 1 [] = Panic SITE_VD_SLICE.
-Proof. exact vecdeque_len_gt_cap_refuted. Qed.
+(* ANY header values (len > cap, cap = 0, head >= cap, garbage): the read error, or the slots
+   vd_indices with what the memory holds; no panic as long as the address arithmetic fits *)
+Theorem C06_vecdeque_total : forall dp len cap head el buf,
+  dp + (vd_cap cap el + guard_len len) * el < 2 ^ 63 ->
+  vecdeque_decode_at dp len cap head el buf = Err EIO \/
+  vecdeque_decode_at dp len cap head el buf =
+    Ok (map (fun i => (i, elem_at buf el i)) (vd_indices len cap head el)).
+Proof. exact vecdeque_total. Qed.
+
+Theorem C06_vecdeque_no_panic : forall dp len cap head el buf,
+  len < 2 ^ 63 -> dp + (vd_cap cap el + LEN_GUARD) * el < 2 ^ 63 ->
+  vecdeque_decode_at dp len cap head el buf = Err EIO \/
+  exists items, vecdeque_decode_at dp len cap head el buf = Ok items /\
+                map fst items = vd_indices len cap head el /\ lenN items = guard_len len /\
+                lenN items <= LEN_GUARD.
+Proof. exact vecdeque_no_panic. Qed.
+
+(* without that bound the debug profile still panics: garbage capacity 2^62, or a len field with the
+   top bit set (not guarded) *)
+Theorem C06_vecdeque_overflow_refuted :
+  vecdeque_decode 1 (2 ^ 62) (2 ^ 62 - 1) 8 [] = Panic SITE_VD_MUL /\
+  vecdeque_decode (2 ^ 63) 1 0 8 [1; 2; 3; 4; 5; 6; 7; 8] = Panic SITE_VD_MUL /\
+  vecdeque_decode (2 ^ 63 + 1) 1 0 1 [1] = Panic SITE_VD_ALLOC.
+Proof. exact vecdeque_overflow_refuted. Qed.
 
 Theorem C06_vec_exact_partial : forall len el buf,
   len <= LEN_GUARD -> len * el < 2 ^ 64 -> len * el <= lenN buf ->
   vec_decode len el buf = Ok (vec_spec len el buf).
 Proof. exact vec_exact_partial. Qed.
+
+Theorem C06_vec_len_guard_refuted :
+  exists len el buf, len * el <= lenN buf /\
+    exists items, vec_decode len el buf = Ok items /\ lenN items = LEN_GUARD /\ lenN (vec_spec len el buf) = len
+                  /\ len = LEN_GUARD + 1.
+Proof. exact vec_len_guard_refuted. Qed.
 
 (* ---- hashbrown --------------------------------------------------------------------------- *)
 (* the software movemask is the SSE2 one, for every group (not 100 random ones) *)
@@ -82,27 +98,42 @@ Proof. exact bt_iter_exact. Qed.
 Theorem C06_btree_cyclic_parent_refuted : forall fuel, bt_collect fuel heap_cyc 8 8 8 0 = OutOfFuel.
 Proof. exact bt_cyclic_parent_out_of_fuel_refuted. Qed.
 
-(* ---- enums ------------------------------------------------------------------------------- *)
-Theorem C06_enum_select_partial : forall signed vs tag,
-  NoDup (map fst (enum_table vs)) -> keys_faithful signed vs ->
-  (forall v d, In v vs -> intended_value signed v = Some d -> wrap_i64 d = wrap_i64 tag -> d = tag) ->
-  select_variant (enum_table vs) (Some (wrap_i64 tag)) = spec_variant (intended_table signed vs) tag.
-Proof. exact enum_select_partial. Qed.
+(* a len field above CAPACITY (corrupt node): the key slice is out of range *)
+Theorem C06_btree_len_above_capacity_refuted :
+  bt_collect 100 [(8, mkNode 0 0 12 [] [])] 8 8 8 0 = Panic SITE_BT_SLICE.
+Proof. exact bt_len_above_capacity_refuted. Qed.
 
-(* unsigned tag, discriminant 200 in DW_FORM_data1: the default variant is shown *)
-Theorem C06_enum_unsigned_high_discr_refuted :
-  exists vs bytes,
-    enum_decode false 1 vs bytes = Ok (Some 0) /\
-    bytes = to_le_bytes_u 1 200 /\
-    spec_variant (intended_table false vs) 200 = Some 1.
-Proof. exact enum_unsigned_high_discr_refuted. Qed.
+(* ---- enums ------------------------------------------------------------------------------- *)
+(* tag of 1/2/4/8 bytes, signed or unsigned, discriminant constants in any DWARF form: the variant
+   whose discriminant equals the tag value, the default variant otherwise.  Hypotheses: the
+   discriminants are values of the tag type and pairwise different. *)
+Theorem C06_enum_select_exact : forall signed sz vs tag,
+  tag_size_ok sz -> variants_in_range signed sz vs ->
+  NoDup (map fst (intended_table signed vs)) -> in_tag_range signed sz tag ->
+  select_variant (enum_table signed sz vs) (Some (wrap_i64 tag)) = spec_variant (intended_table signed vs) tag.
+Proof. exact enum_select_exact. Qed.
+
+(* ... from the bytes of the tag field *)
+Theorem C06_enum_decode_exact : forall (signed : bool) sz vs tag rest,
+  tag_size_ok sz -> variants_in_range signed sz vs ->
+  NoDup (map fst (intended_table signed vs)) -> in_tag_range signed sz tag ->
+  enum_decode signed sz vs
+    ((if signed then to_le_bytes_s (N.to_nat sz) tag else to_le_bytes_u (N.to_nat sz) (Z.to_N tag)) ++ rest)
+  = Ok (spec_variant (intended_table signed vs) tag).
+Proof. exact enum_decode_exact. Qed.
+
+(* still open: 16-byte tags *)
+Theorem C06_enum_128bit_tag_refuted :
+  exists vs bytes, enum_decode false 16 vs bytes = Ok None /\
+                   spec_variant (intended_table false vs) 0 = Some 1.
+Proof. exact enum_128bit_tag_refuted. Qed.
 
 (* ---- non-vacuity -------------------------------------------------------------------------- *)
 (* a 4-bucket table (smaller than a group) with tombstone, and a wrapped-around VecDeque *)
 Example C06_example :
   hb_layoutb ([0; 255; 128; 1] ++ repeat 255 12 ++ [0; 255; 128; 1]) 4 = true /\
   hb_collect (hb_fuel 3) ([0; 255; 128; 1] ++ repeat 255 12 ++ [0; 255; 128; 1]) 3 8 = Ok [(-8)%Z; (-32)%Z] /\
-  vd_guardedb 3 4 1 = true /\ vd_validb 3 4 2 1 = true /\
+  (3 <=? LEN_GUARD) = true /\ vd_validb 3 4 2 1 = true /\
   vecdeque_decode 3 4 2 1 [10; 11; 12; 13] = Ok [(2, [12]); (3, [13]); (0, [10])].
 Proof. vm_compute. auto 6. Qed.
 
@@ -116,6 +147,7 @@ Example C06_checks :
              (400, mkNode 100 2 3 [] [50;60;70;0;0;0;0;0;0;0;0])],
             100, 1, 8, 8, [1;2;20;30;40;50;60;70], [1;2;20;30;40;50;60;70]) = 0 /\
   int_check (true, 2, [254; 255], (-2)%Z) = 0 /\
-  enum_check (false, 1, [(Some (FData1, 200%Z), 1); (None, 0)], [200], 1, Some 0) = 2 /\
+  enum_check (false, 1, [(Some (FData1, 200%Z), 1); (None, 0)], [200], 1, Some 1) = 0 /\
+  enum_check (true, 2, [(Some (FData1, 200%Z), 1); (Some (FData2, 65236%Z), 2)], [200; 255], 1, Some 1) = 0 /\
   vec_check (3, 4, repeat 0 12, [0; 1; 2]) = 0.
-Proof. vm_compute. auto 8. Qed.
+Proof. vm_compute. auto 9. Qed.
